@@ -341,9 +341,13 @@ PROPS['C04'] = {
     'verus': ['u_spline'],
     'kani': {
         'quick': [kset('c04', [H(f'c04_wiring_{side}_n{n}', 'spline', f'{n} knots; knot coordinates are the integers 0..15; f_dx and segment replaced by recording stubs', False, SPL)
-                               for side in ('left', 'right') for n in (3, 4, 5)], timeout=2400, extra=['-Z', 'stubbing', '--solver', 'kissat'])],
+                               for side in ('left', 'right') for n in (3, 4, 5)] +
+                       [H(f'c04_wiring_{side}_n{n}', 'spline', f'{n} knots; abscissae are the integers 0..{n-1}, ordinates the integers 0..15; f_dx and segment replaced by recording stubs', False, SPL)
+                        for side, n in (('right', 12), ('left', 20))], timeout=2400, extra=['-Z', 'stubbing', '--solver', 'kissat'])],
         'thorough': [kset('c04', [H(f'c04_wiring_{side}_n{n}', 'spline', f'{n} knots; knot coordinates are the integers 0..15; f_dx and segment replaced by recording stubs', False, SPL)
-                                  for side in ('left', 'right') for n in (3, 4, 5, 6)], timeout=6000, extra=['-Z', 'stubbing', '--solver', 'kissat'])],
+                                  for side in ('left', 'right') for n in (3, 4, 5, 6)] +
+                          [H(f'c04_wiring_{side}_n{n}', 'spline', f'{n} knots; abscissae are the integers 0..{n-1}, ordinates the integers 0..15; f_dx and segment replaced by recording stubs', False, SPL)
+                           for side in ('left', 'right') for n in (12, 20)], timeout=6000, extra=['-Z', 'stubbing', '--solver', 'kissat'])],
     },
     'probe': True,
     'level': 'other',
